@@ -337,3 +337,4 @@ ASSUMPTIONS = ["equal priority (MEDIUM); cross-priority order is randomised by d
 
 from engine.harness import borrowed  # noqa: E402
 HARNESSES.append(borrowed("c05", "H05-mem-steady-load", "H15-mem-due-under-load"))   # a message that became due is not overtaken for ever by later arrivals
+HARNESSES.append(borrowed("c05", "H05-mem", "H15-mem-due-behind-far"))           # a due message is not stuck behind one scheduled earlier for a later time
